@@ -158,6 +158,12 @@ type statsFile struct {
 // Extra lets a check publish additional measured counters into its evidence.
 var Extra = map[string]interface{}{}
 
+// AddExtra accumulates a measured counter into the evidence of this run.
+func AddExtra(key string, n int) {
+	cur, _ := Extra[key].(int)
+	Extra[key] = cur + n
+}
+
 type state struct {
 	e        *entry
 	st       statsFile
